@@ -27,7 +27,6 @@ structure R (P : Nat) (a : AState) (s : Sess) : Prop where
   nfa : NoFpNoAnchor s.b
   src : s.b.src = a.src
   cur : s.b.base + s.b.pos = a.cur
-  inb : a.cur ≤ a.src.length
   ps : P ≤ s.b.pagesize
   modefp : s.b.hasfp = false ↔ memMode s.b.mode
   base0 : s.b.hasfp = false → s.b.base = 0
